@@ -34,7 +34,7 @@ def cases(tier, seed):
     yield dict(kind='ids')
     dims = [('ninst', [1, 2]), ('nbeads', [1, 0, 2]), ('nsamples', [2, 1, 3]), ('units', ['mixed', 'all-mef', 'channel', 'none', 'all-rfi']),
             ('cont', ['int', 'float']), ('plot', [False, True]), ('hist', [False, True]), ('outpath', ['default', 'explicit']),
-            ('nfl', [2, 3, 4, 11]), ('cluster', ['all', 'one'])]
+            ('nfl', [2, 3, 4, 11]), ('cluster', ['all', 'one']), ('wbname', ['experiment', 'cells', 'samples.x', 'xls', 'Tables 2020-01'])]
     if tier == 'quick':
         cfgs = [dict(ninst=1, nbeads=1, nsamples=2, units='mixed', cont='int', plot=True, hist=True, outpath='default', nfl=2, cluster='all'),
                 dict(ninst=1, nbeads=1, nsamples=1, units='all-mef', cont='int', plot=True, hist=False, outpath='explicit', nfl=3, cluster='all'),
@@ -42,7 +42,10 @@ def cases(tier, seed):
                 dict(ninst=1, nbeads=0, nsamples=2, units='channel', cont='float', plot=False, hist=False, outpath='default', nfl=2, cluster='all'),
                 dict(ninst=1, nbeads=1, nsamples=1, units='none', cont='int', plot=True, hist=True, outpath='default', nfl=2, cluster='one'),
                 dict(ninst=1, nbeads=1, nsamples=1, units='mixed', cont='int', plot=True, hist=False, outpath='default', nfl=4, cluster='all'),
-                dict(ninst=1, nbeads=1, nsamples=1, units='all-rfi', cont='int', plot=True, hist=True, outpath='default', nfl=11, cluster='one')]
+                dict(ninst=1, nbeads=1, nsamples=1, units='all-rfi', cont='int', plot=True, hist=True, outpath='default', nfl=11, cluster='one'),
+                dict(ninst=1, nbeads=1, nsamples=2, units='mixed', cont='float', plot=False, hist=True, outpath='default', nfl=2, cluster='all', wbname='cells'),
+                dict(ninst=1, nbeads=0, nsamples=1, units='channel', cont='int', plot=False, hist=False, outpath='default', nfl=2, cluster='all', wbname='samples.x'),
+                dict(ninst=1, nbeads=0, nsamples=1, units='none', cont='int', plot=False, hist=True, outpath='default', nfl=2, cluster='all', wbname='xls')]
     else:
         cfgs = list(explore.deviations(dims, 1)) + [c for c in explore.deviations(dims, 2) if c['_dev'] == 2 and c['plot'] and (c['nfl'] == 3 or c['hist'])]
     for cfg in cfgs:
@@ -179,7 +182,7 @@ def build(cfg, d):
                 units[ch] = 'RFI'              # every fluorescence channel of the instrument is reported
         samples.append(dict(id='S%04d' % (k + 1), inst=inst['id'], beads=mine[0]['id'] if mine else None, file='./FCFiles/cells%d.fcs' % k,
                             gate_fraction=0.85, units=units, inst_obj=inst))
-    wb = os.path.join(d, 'experiment.xlsx')
+    wb = os.path.join(d, cfg.get('wbname', 'experiment') + '.xlsx')
     mcols, ucols = [], []
     for b in beads:
         for ch in b['mef']:
@@ -324,7 +327,7 @@ def run_case(c):
             with warnings.catch_warnings():
                 warnings.simplefilter('ignore')
                 wb, insts, beads, samples, mcols, ucols = build(cfg, d)
-                outp = os.path.join(d, 'results', 'out.xlsx') if cfg['outpath'] == 'explicit' else os.path.join(d, 'experiment_output.xlsx')
+                outp = os.path.join(d, 'results', 'out.xlsx') if cfg['outpath'] == 'explicit' else os.path.join(d, cfg.get('wbname', 'experiment') + '_output.xlsx')
                 if cfg['outpath'] == 'explicit':
                     os.makedirs(os.path.dirname(outp), exist_ok=True)
                 what = 'excel_ui.run(%s)' % ', '.join('%s=%r' % kv for kv in sorted(cfg.items()) if kv[0] != '_dev')
@@ -339,6 +342,10 @@ def run_case(c):
                 finally:
                     plt.close('all')
                 bic = [(b['id'], [ch for ch in b['inst_obj']['fl'] if b['mef'].get(ch)]) for b in beads]
+                if not os.path.isfile(outp):
+                    res.violation('run:output-missing', '%s: the output workbook %s was not written (files in the directory: %s)' % (
+                        what, os.path.relpath(outp, d), sorted(x for x in os.listdir(d) if x.endswith('.xlsx'))), dict(c))
+                    return res
                 if check_output(res, 'run', what, wb, outp, d, cfg['plot'], cfg['hist'], dict(c), bic, [s['id'] for s in samples], None):
                     res.ok('run:plot=%s:hist=%s' % (cfg['plot'], cfg['hist']), bool(beads or samples))
                     # the same workbook analysed a second time (output and figure directories exist now); the working
